@@ -409,6 +409,11 @@ def install(world):
                                 kind='iter'))
         if isinstance(x, SSeq):
             return S.SIter(x)
+        if type(x).__name__ == 'ObjVal':
+            # the iterator protocol of a repository class
+            m = world.attr_model(x, '__iter__', it)
+            if isinstance(m, FuncRef):
+                return it.call(m, [], {}, node)
         return x
     reg('iter', b_iter, True)
 
@@ -422,6 +427,18 @@ def install(world):
             if d:
                 return d[0]
             it.raise_('StopIteration', node=node)
+        if type(x).__name__ == 'ObjVal':
+            m = world.attr_model(x, '__next__', it)
+            if isinstance(m, FuncRef):
+                if not d:
+                    return it.call(m, [], {}, node)
+                from .interp import RaiseSig
+                try:
+                    return it.call(m, [], {}, node)
+                except RaiseSig as r:
+                    if 'StopIteration' in r.exc.cls.mro_names(world):
+                        return d[0]
+                    raise
         if hasattr(x, '__next__') and not S.is_sym(x):
             try:
                 return next(x)
@@ -513,6 +530,13 @@ def install(world):
             return S.SSet(z3.Lambda([v], S.py_in(x.t, v)), TVal)
         raise Unsupported('frozenset() of %r' % (x,))
     reg('frozenset', b_frozenset, True)
+
+    def b_id(x):
+        # the address of the object: SOME integer (nothing else is known;
+        # in particular addresses are reused once an object is freed)
+        world.trusted_used.add('id(): uninterpreted integer')
+        return SInt(uf('py.id', S.Val, z3.IntSort())(S.box_any(x)))
+    reg('id', b_id)
     for nm in ('str', 'int', 'bool', 'float', 'tuple', 'list', 'dict', 'set',
                'frozenset'):
         m[nm].pytype = nm
@@ -643,7 +667,9 @@ def install(world):
     _sorted_uf = lazy_uf('py.sorted')
 
     def b_sorted(it, node, x, **kw):
-        if isinstance(x, (list, tuple)) and len(x) <= 5 and not it.spec \
+        if isinstance(x, (dict, set, frozenset)):
+            x = list(x)
+        if isinstance(x, (list, tuple)) and len(x) < 64 and not it.spec \
                 and set(kw) <= {'key', 'reverse'}:
             return _stable_sort(list(x), kw.get('key'),
                                 kw.get('reverse', False), it, node)
@@ -1141,7 +1167,7 @@ def seq_method(world, o, name, args, kw, it, node):
             return None
         if name == 'copy':
             return list(o)
-        if name == 'sort' and len(o) <= 5 and not args:
+        if name == 'sort' and len(o) < 64 and not args:
             # list.sort(key=, reverse=): stable insertion sort, forking on
             # each (possibly symbolic) comparison of the keys
             o[:] = _stable_sort(o, kw.get('key'), kw.get('reverse', False),
@@ -1238,6 +1264,11 @@ def seq_method(world, o, name, args, kw, it, node):
             alts = [z3.Re(z3.StringVal(e)) for e in sorted(o)]
             cls = z3.Union(*alts) if len(alts) > 1 else alts[0]
             return SBool(z3.InRe(x.t, z3.Star(cls)))
+    if isinstance(o, set) and name == 'update' and len(args) == 1 and \
+            isinstance(args[0], (tuple, list, set, frozenset)):
+        for e in args[0]:
+            o.add(e)
+        return None
     if isinstance(o, (set,)):
         if name == 'add':
             if S.is_sym(args[0]):
